@@ -96,7 +96,7 @@ func init() {
 			"The thorough tier enumerates ALL %d (entry point, n, vector) combinations, each under %d tape-drawn contexts (headers, payload, keys/algorithms, external data, k); the quick tier samples vectors from the tape. "+
 			"Oracle: any error kind => the call returns a non-nil error that wraps the injected one, returns no bytes, leaves the failing slot's signature empty, MarshalCBOR of the message errors, and no later signer/verifier was called; an empty-returning signer must surface as an error by MarshalCBOR at the latest and no helper returns bytes; entropy.short => success and the signature verifies; an ECDSA or PSS signature produced without the caller's entropy source having been read is reported (the injected failure could not surface); "+
 			"verifier.err at any position is returned, never nil, and later verifiers are not consulted; the reference parser finds no zero-length signature in anything emitted. "+
-			"A third of failing-verifier runs first let the same verifier objects accept the same message object. " +
+			"A third of failing-verifier runs first let the same verifier objects accept the same message object. "+
 			"Non-trivial = every run (a vector was executed and judged); distinct = distinct (entry point, n, fault vector as fired, outcome).", c20MaxN, c20MaxN, len(c20AllVectors), C20ContextsPerVector),
 		Assumptions: []string{"exhaustive over the fault dimension (vectors), sampled over contexts", "an entropy fault that the algorithm never reads far enough to meet (Ed25519, k beyond what is read) counts as ok for that call"},
 		Real:        []string{"github.com/veraison/go-cose (all Sign/Verify entry points, encoders)", "github.com/fxamacker/cbor/v2", "Go crypto"},
